@@ -311,6 +311,35 @@ def _short(name):
 
 
 # ====================================================================== the check
+def _nofollow_container_ok(text):
+    """The thing `'nofollow'` is looked up in is either the folded payload text itself (substring test) or a collection of
+    its comma-separated tokens each of which is stripped ("noindex, nofollow" has a blank after the comma)."""
+    try:
+        e = ast.parse(text, mode='eval').body
+    except SyntaxError:
+        return False
+
+    def is_text(x):
+        while isinstance(x, ast.Call) and isinstance(x.func, ast.Attribute) and x.func.attr in ('lower', 'casefold', 'strip', 'replace'):
+            x = x.func.value
+        return isinstance(x, (ast.Call, ast.Subscript, ast.Name, ast.Attribute)) and not (
+            isinstance(x, ast.Call) and isinstance(x.func, ast.Attribute) and x.func.attr in ('split', 'rsplit', 'splitlines', 'partition'))
+    if is_text(e):
+        return True
+    if isinstance(e, (ast.ListComp, ast.SetComp, ast.GeneratorExp)) and len(e.generators) == 1:
+        g = e.generators[0]
+        tv = g.target.id if isinstance(g.target, ast.Name) else None
+        x = e.elt
+        stripped = False
+        while isinstance(x, ast.Call) and isinstance(x.func, ast.Attribute) and x.func.attr in ('lower', 'casefold', 'strip'):
+            stripped = stripped or x.func.attr == 'strip'
+            x = x.func.value
+        it_ = g.iter
+        return stripped and isinstance(x, ast.Name) and x.id == tv and isinstance(it_, ast.Call) and isinstance(it_.func, ast.Attribute) \
+            and it_.func.attr == 'split' and is_text(it_.func.value) and not g.ifs
+    return False
+
+
 def run(ctx):
     repo, ck = ctx.repo, ctx.check
     for m in (ROB, POOL, RULE, WEB, HTML, DL):
@@ -1239,6 +1268,8 @@ def _d5(ctx):
                 and re.match(r"^P0\.(attrib\.)?get\('name'(, '')?\)(\.strip\(\))?%s(\.strip\(\))?$" % fold, other(k, "'robots'"))]
         nof = [k for k in atoms if k[0] == 'in' and k[1] == "'nofollow'" and re.search(r"P0\.(attrib\.)?(get\('[\w-]+'|\['[\w-]+'\])", k[2]) and re.search(fold, k[2])]
         good = len(tag) == 1 and len(name) == 1 and len(nof) == 1 and len(atoms) == 3
+        if good and not _nofollow_container_ok(nof[0][2]):
+            good = False
         if good:
             for v, t in rows:
                 want = v.get(tag[0], 'eq') == 'eq' and v.get(name[0], 'eq') == 'eq' and v.get(nof[0], True) is True
